@@ -1,7 +1,7 @@
 (* Extraction for C09: generated arithmetic + hand models.  ExtrOcamlBasic only. *)
 From Coq Require Import ZArith List Extraction ExtrOcamlBasic.
 From MomoCommon Require Import GenPrelude.
-From C09 Require Gen_UIntMath Gen_MemPoolConst Gen_MemPool PoolLayout PoolLinks PoolConc.
+From C09 Require Gen_UIntMath Gen_MemPoolConst Gen_MemPool Gen_MemPoolUInt32 PoolLayout PoolLinks PoolConc.
 Separate Extraction
   Gen_UIntMath.Ceil Gen_MemPoolConst.CorrectBlockSize Gen_MemPoolConst.CheckBlockCount Gen_MemPoolConst.CheckBlockAlignment
   Gen_MemPool.pvUseCache Gen_MemPool.pvGetAlignmentAddend Gen_MemPool.pvGetBufferSize0 Gen_MemPool.pvGetBufferSize1
@@ -9,8 +9,9 @@ Separate Extraction
   Gen_MemPool.pvGetBlocksEndPosition Gen_MemPool.pvGetBufferBytesPosition Gen_MemPool.pvGetPrevBufferPosition
   Gen_MemPool.pvGetNextBufferPosition Gen_MemPool.pvGetBeginOffsetPosition Gen_MemPool.pvNewBlock1 Gen_MemPool.pvDeleteBlock1
   Gen_MemPool.pvNewBuffer PoolLayout.new_buffer_layout PoolLayout.block_of PoolLayout.meta_ranges PoolLayout.new_block1_layout
-  PoolLayout.check_params PoolLayout.alloc1 PoolLayout.dealloc1
+  PoolLayout.check_params PoolLayout.max_overhead PoolLayout.alloc1 PoolLayout.dealloc1
   PoolLinks.merge_from PoolLinks.merge_from_prefix PoolLinks.move_to_head PoolLinks.delete_buffer PoolLinks.append_new_buffer
   PoolLinks.heap_of_lists PoolLinks.list_of
   PoolConc.empty_world PoolConc.Allocate PoolConc.Deallocate PoolConc.DeallocateAll PoolConc.DeallocateIf PoolConc.MergeFrom
-  PoolConc.chain_of PoolConc.getp PoolConc.Swap PoolConc.MoveAssign.
+  PoolConc.chain_of PoolConc.getp PoolConc.Swap PoolConc.MoveAssign
+  Gen_MemPoolUInt32.GetRealPointer Gen_MemPoolUInt32.pvGetBufferSize Gen_MemPoolUInt32.pvNewBuffer.
